@@ -153,16 +153,28 @@ KNOWN_NO_WRAPPER = "wrap-symbol-undefined-falls-back-to-S"
 
 
 def no_wrapper_sites(case, m):
-    """Exact domain of the known finding: an undefined reference to a wrapped S (from a loaded
-    file that does not define S) when no input file defines __wrap_S. GNU ld leaves the reference
-    pointing at the undefined __wrap_S (error if non-weak, 0 if weak); wild binds it to S."""
-    defined = {(i, which) for f in case["files"] for i, which, _ in f["defs"]}
+    """Exact domain of the known finding (one root cause: wild implements --wrap as a name->id
+    override that exists only when __wrap_S resolves to a loaded definition; otherwise the
+    reference keeps the *name* S):
+    (a) an undefined reference to a wrapped S (from a loaded file that does not define S) when no
+        input file defines __wrap_S: GNU ld leaves it pointing at the undefined __wrap_S (error if
+        non-weak, 0 if weak); wild binds it to S;
+    (b) a weak such reference when __wrap_S is defined only in an archive member that stays
+        unloaded and a shared library defines S: GNU ld emits the weak undefined dynamic symbol
+        __wrap_S (0 at run time); wild emits it under the name S, which ld.so binds to the library."""
+    where = {(i, which): fi for fi, f in enumerate(case["files"]) for i, which, _ in f["defs"]}
     out = []
     for fi, f in enumerate(case["files"]):
         if not m["loaded"][fi] or f["kind"] == "so":
             continue
         for i, which, weak in f["refs"]:
-            if which == "S" and target_of(case, f, i, which) == "wrap" and (i, "wrap") not in defined:
+            if which != "S" or target_of(case, f, i, which) != "wrap":
+                continue
+            wf = where.get((i, "wrap"))
+            sf = where.get((i, "S"))
+            if wf is None:
+                out.append((site_id(fi, i, which), weak))
+            elif weak and not m["loaded"][wf] and sf is not None and case["files"][sf]["kind"] == "so":
                 out.append((site_id(fi, i, which), weak))
     return out
 
@@ -277,12 +289,12 @@ class C33(Check):
         nontrivial, key, classes = classify(case, m)
         info = {"nontrivial": nontrivial, "key": key, "classes": classes}
 
-        w = tools.link("wild", [*args, "-o", "w.out"], cwd=d)
+        w = symgen.link("wild", [*args, "-o", "w.out"], cwd=d)
         if w.timed_out:
             raise Inconclusive("wild timed out")
         if symgen.wild_crashed(w):
             raise Violation("crash", f"wild crashed: rc={w.rc} {w.err[-400:]}", {"args": args})
-        r = tools.link("ld", [*args, "-o", "r.out"], cwd=d)
+        r = symgen.link("ld", [*args, "-o", "r.out"], cwd=d)
         if r.timed_out:
             raise Inconclusive("ld timed out")
 
